@@ -192,8 +192,12 @@ class Mon:
         if check_state:
             # same word, different machine state (same C flag, IT position, instruction set): operands must be equal
             c = cpu.registers.cpsr.c
+            m0 = cpu.registers.cpsr.m
             ctx2, d2 = self.setup(kind, itpos, rng, ctxkey=(ctx.cfgname, ctx.prot))
             ctx2.cpu.registers.cpsr.c = c
+            if (m0 == 0b11010) != (ctx2.cpu.registers.cpsr.m == 0b11010):
+                ctx2.cpu.registers.cpsr.m = m0            # being in Hyp mode is an architectural input of some decodes (SUBS PC,LR)
+                ctx2.cpu.registers.scr.ns = 1 if m0 == 0b11010 else ctx2.cpu.registers.scr.ns
             eo2, obj2 = self.emu_decode(ctx2.cpu, kind, w)
             self.bump('state_independence_pairs')
             got2 = {k: self.DC.norm(v) for k, v in vars(obj2).items() if k != 'instruction'} if obj2 is not None else None
